@@ -90,6 +90,12 @@ def expr_extra():
         "(x + 1) ** 2", "((2 + x) / 2) ** (1 + x)", "x ** 2 * y ** 3 / a ** 2",
         "((((x))))", "(x) + ((y))", "2 * 3 / 4", "1 / 4 * x", "x * 1 / 4", "(2 * 3) / 3 * x", "1/4", "2/3*y",
         "x ** (2/3)", "1 / x ** 2", "1 / (x ** 2)", "(1 / x) ** 2",
+        # a sign in front of a numeric literal is a unary operator on the power, not part of the number
+        "-2 ** x", "-2.5 ** y", "x * -3 ** y", "-10 ** (-a)", "2 ** -3", "(-2) ** 2", "-2 ** 2", "y - -2 ** x", "-1e1 ** x",
+        "exp(-2 ** x)", "a / -2 ** 2", "(x - -3 ** 2) * y", "+2 ** x", "-0.5 ** b * x",
+        # division by a power (the power is an atom for the enclosing product)
+        "a / x ** 2", "a / (x + y) ** 3", "x / y ** 2 / a", "a / x ** 2 * y", "-a / b ** 2", "a / x ** 3 - b / y ** 2",
+        "1 / x ** 2 / y ** 3", "a * x / (b + x) ** 2",
     ]
 
 
@@ -329,8 +335,13 @@ def select(items, n, seed, keep_first=0):
     if n is None or len(items) <= n:
         return list(items)
     # one-of-a-kind programs are never sampled away
-    always = [x for x in items if isinstance(x, dict) and x.get("family") in ("WIDE", "NOPARAM", "LAYOUT", "CORPUS", "UNUSED", "CINT")]
-    items = always + [x for x in items if not (isinstance(x, dict) and x.get("family") in ("WIDE", "NOPARAM", "LAYOUT", "CORPUS", "UNUSED", "CINT"))]
+    def keep(x):
+        return isinstance(x, dict) and (x.get("family") in ("WIDE", "NOPARAM", "LAYOUT", "CORPUS", "UNUSED", "CINT")
+                                        or (x.get("meta") or {}).get("keep"))
+    always = [x for x in items if keep(x)]
+    items = always + [x for x in items if not keep(x)]
+    if len(always) >= n:
+        return always
     keep_first = max(keep_first, len(always))
     head = items[:keep_first]
     rest = items[keep_first:]
@@ -356,7 +367,7 @@ def value_programs(tier, seed):
     """The shared program universe for value properties (C01, C02, C03, C05...)."""
     ex = expr_family(3 if tier == "quick" else 4)
     P = []
-    P += pack(expr_extra(), "EXPR")
+    P += pack(expr_extra(), "EXPR", meta={"keep": True})   # hand-picked precedence cases: never sampled away
     e_sel = select(ex, 240 if tier == "quick" else 6000, seed)
     P += pack(e_sel, "EXPR")
     lf = leaf_family()
